@@ -80,7 +80,7 @@ def vec_root(f, local, depth=0):
 
 
 def rule(fx, ck, name="R5.array-length"):
-    ck.rule(name, "every count reported next to a leaked boxed slice is a constant or the len() of a vector that is handed out", floor=8)
+    ck.rule(name, "every count reported next to a leaked boxed slice is a constant or the len() of a vector that is handed out", floor=4)
     nsites = 0
     for f in fx.fns.values():
         if not f.file.startswith("src/ffi") or f.derived:
